@@ -22,6 +22,8 @@ claimed = {
          "expression-shape matching + must-call", "§4 C08"),
  "C09": ("narrow structural clauses only (level other): inputs reduced first (full-range loop, only reduction results reach the sponge); permutation is a function (R1/W1 of the s-box reductions); sibling constant tables agree and are canonical. Equality with plonky2 for all inputs is not decided.",
          "origin analysis + constant-table comparison from type-checked syntax", "§4 C09"),
+ "C10": ("narrow structural clauses only (level other): the injectivity half of the property — limb packing in HashNoPad/HashOrNoop is Σ limb_k·base^k with constant base ≥ 2^64, exponent = limb index, bounded limb count with base^T ≤ r; ToVec chunks the canonical decomposition into consecutive disjoint ≤63-bit chunks. Numeric agreement of the BN254 Poseidon permutation/sponge/shortcut with the reference PoseidonBN128 is NOT decided (no sound static argument in reach).",
+         "recurrence extraction from SSA phis + constant evaluation of package initialisers + slice-bound reasoning", "§4 C10 / §10.6"),
  "C11": ("order + binding (level other): the observe/squeeze events of GetChallenges∘GetFriChallenges are totally ordered in plonky2's reference order, openings observed in content order, every transcript-bound leaf observed with full coverage, ObserveElement clears the output buffer. The sponge arithmetic over arbitrary histories is not decided.",
          "event-sequence extraction over the SSA CFG (dominance order) + content-sequence analysis", "§4 C11"),
  "C12": ("presence / coverage / provenance (level other) of the Merkle equalities for initial and commit-phase trees, index-bit provenance, caps order. Left/right ordering and lookup arithmetic are test-pinned, not claimed.",
@@ -42,7 +44,6 @@ claimed = {
          "T3 guard table over must-execute analysis", "§4 C20"),
 }
 not_applicable = {
- "C10": "numeric agreement of BN254 Poseidon / sponge / conversions with a reference for all inputs; the structural facts (56-bit chunks, 3x64-bit limbs, schedule) are pinned by the positive tests and injectivity reduces to canonicity, decided under C17 — no clause is left that static analysis decides and tests do not (DESIGN §5)",
  "C15": "numeric equality of 14 gate polynomial families for all wire values and parameterisations; the selector-filter structure is test-pinned; identifier-to-gate binding is C18 (DESIGN §5)",
 }
 built = set(l.strip() for l in open(os.path.join(D, "claimed.txt")) if l.strip())
